@@ -1,7 +1,7 @@
 CONSTANTS
   DocIds = {"D1", "D2", "D3", "D4", "D5"}
-  Group = "lines"
-  MaxNoise = 1
+  Group = "all"
+  MaxNoise = 2
 INIT Init
 NEXT Next
 INVARIANT C02_LayoutIndependent
